@@ -644,13 +644,13 @@ func main() {
 	for _, a := range assumptions {
 		run.Assume(a)
 	}
-	if run.Evals == 0 || atomic.LoadInt64(&cDiffEvals) == 0 {
+	if run.Evals == 0 || (only == "" && atomic.LoadInt64(&cDiffEvals) == 0) {
 		run.EngineError("non-vacuity: no case / no differential SEARCH comparison was executed")
 	}
 	fmt.Printf("C02 configurations=%d families=%d cases/config=%d  illegal: rejected=%d refused-locally=%d altered=%d  over-limit: refused=%d intact=%d\n",
 		len(configs), len(fams), perCfg[configs[0].Name], cRejectedIllegal, cRefusedLocally, cAlteredIllegal, cLimitRefused, cLimitPassed)
 	for _, f := range fams {
-		fmt.Printf("  family %-30s %8d cases x %d configurations  %7.1f cpu-s\n", f.name, f.n, len(configs), float64(*famNanos[f.name])/1e9)
+		fmt.Printf("  family %-30s %8d cases x %d configurations  %7.1f worker-s\n", f.name, f.n, len(configs), float64(*famNanos[f.name])/1e9)
 	}
 	run.Finish()
 }
